@@ -248,6 +248,27 @@ func legRobust(c *Ctx) {
 				w.FindAllString(in, count)
 				w.FindReaderIndex(strings.NewReader(in))
 				w.FindSubmatch([]byte(in))
+				// every remaining method of the adapter, on the hostile text and on a text most patterns match in part
+				for _, t := range []string{in, "ab 12 ab"} {
+					b := []byte(t)
+					w.MatchReader(strings.NewReader(t))
+					w.Find(b)
+					w.FindIndex(b)
+					w.FindString(t)
+					w.FindStringIndex(t)
+					w.FindSubmatchIndex(b)
+					w.FindStringSubmatch(t)
+					w.FindReaderSubmatchIndex(strings.NewReader(t))
+					for _, n := range []int{count, -1, 2} {
+						w.FindAll(b, n)
+						w.FindAllStringIndex(t, n)
+						w.FindAllSubmatch(b, n)
+						w.FindAllSubmatchIndex(b, n)
+						w.FindAllStringSubmatch(t, n)
+						w.FindAllStringSubmatchIndex(t, n)
+					}
+				}
+				_ = w.String()
 				return nil
 			})
 		}
@@ -488,6 +509,53 @@ func legRobust(c *Ctx) {
 		}
 	}
 	c.Gate("stack-growth stress ran", growCalls > 500)
+
+	// the adapter's methods on matches in which some group did not take part (index pair -1,-1): every method, every n
+	for _, ap := range []string{`(a)|b`, `x(y)?z`, `(\d+)|([a-z]+)`, `(é)|.`, `(?:(a)|(b)|c)+`, `(a)?(b)?c`, `()|a`, `(?<n>a)?b\k<n>?`} {
+		for _, ro := range []regexp2.RegexOptions{0, regexp2.RightToLeft, regexp2.RE2, regexp2.IgnoreCase | regexp2.ECMAScript} {
+			re, err := regexp2.Compile(ap, ro)
+			if err != nil {
+				continue
+			}
+			re.MatchTimeout = 200 * time.Millisecond
+			w := compat.Wrap(re)
+			var bad []string
+			for _, t := range []string{"ab", "xz xyz", "12 ab é", "", "cab", "\xffa", "bca"} {
+				guarded(fmt.Sprintf("adapter methods on %q", t), &bad, false, func() error {
+					b := []byte(t)
+					w.Match(b)
+					w.MatchString(t)
+					w.MatchReader(strings.NewReader(t))
+					w.Find(b)
+					w.FindIndex(b)
+					w.FindString(t)
+					w.FindStringIndex(t)
+					w.FindReaderIndex(strings.NewReader(t))
+					w.FindSubmatch(b)
+					w.FindSubmatchIndex(b)
+					w.FindStringSubmatch(t)
+					w.FindStringSubmatchIndex(t)
+					w.FindReaderSubmatchIndex(strings.NewReader(t))
+					for _, n := range []int{-1, 0, 1, 2, 5} {
+						w.FindAll(b, n)
+						w.FindAllIndex(b, n)
+						w.FindAllString(t, n)
+						w.FindAllStringIndex(t, n)
+						w.FindAllSubmatch(b, n)
+						w.FindAllSubmatchIndex(b, n)
+						w.FindAllStringSubmatch(t, n)
+						w.FindAllStringSubmatchIndex(t, n)
+					}
+					return nil
+				})
+			}
+			cs := &Case{Desc: fmt.Sprintf("adapter: every method on pattern %+q options=%#x (groups that do not take part)", ap, int(ro)), Nontrivial: true, Key: "adapter" + ap + fmt.Sprint(ro), Class: "adapter-unset-groups"}
+			if len(bad) > 0 {
+				cs.Direct = strings.Join(bad, " | ")
+			}
+			c.Add(cs)
+		}
+	}
 
 	// every truncation of every syntactic construct, at the end of a pattern, under every dialect: the pre-scan
 	// (countCaptures) and the parser look ahead by fixed amounts and must find the end of the pattern first
